@@ -47,6 +47,7 @@ enum Bind {
     PopFrom { var: String, heap: String },        // while let Some(var) = heap.pop()
     IterOf { var: String, coll: String },         // for &var in coll.iter() / for &(var, _) in coll.iter().take(..)
     Param(String),
+    Alias { var: String, of: String },             // let idx = dense_id as usize;
     TupleFromCall { var: String, callee: String }, // let (var, _) = self.callee(..)
     FirstOf { var: String, coll: String },        // if let Some(&(var, _)) = coll.first()
     Other(String),
@@ -163,7 +164,20 @@ impl<'a, 'f> An<'a, 'f> {
         txt == "self.len()" || txt == "flat.len()" || ctx.binds.iter().any(|b| matches!(b, Bind::NodeCountAlias(n) if n == txt))
     }
     fn guarded_by_node_count(&self, id: &str, ctx: &Ctx) -> Option<Fact> {
-        ctx.facts.iter().rev().find(|f| f.lhs == id && self.is_node_count(&f.rhs, ctx)).cloned()
+        if let Some(f) = ctx.facts.iter().rev().find(|f| f.lhs == id && self.is_node_count(&f.rhs, ctx)) {
+            return Some(f.clone());
+        }
+        // `let idx = id as usize; if idx >= self.len() { return; }`
+        for b in &ctx.binds {
+            if let Bind::Alias { var, of } = b {
+                if of == id {
+                    if let Some(f) = ctx.facts.iter().rev().find(|f| f.lhs == *var && self.is_node_count(&f.rhs, ctx)) {
+                        return Some(f.clone());
+                    }
+                }
+            }
+        }
+        None
     }
 
     fn classify_id(&self, e: &Expr, ctx: &Ctx, depth: usize) -> (String, String) {
@@ -523,6 +537,8 @@ impl<'a, 'f> An<'a, 'f> {
                         if let Some(v) = vars.first() {
                             if t == "self.len()" || t == "flat.len()" {
                                 ctx.binds.push(Bind::NodeCountAlias(v.clone()));
+                            } else if path_ident(it).is_some() && !matches!(l.pat, Pat::Ident(ref pi) if pi.mutability.is_some()) {
+                                ctx.binds.push(Bind::Alias { var: v.clone(), of: t.clone() });
                             } else if let Expr::MethodCall(m) = it {
                                 if m.method == "count_unchecked" && m.args.len() == 1 {
                                     ctx.binds.push(Bind::CountOf { var: v.clone(), id: ntxt(&m.args[0]) });
@@ -598,9 +614,15 @@ pub fn run(repo: &str) -> Res<Out> {
             unsafe_callees.insert(f.name.clone(), f.params.clone());
         }
     }
+    // safe functions that do raw pointer arithmetic on an id argument without checking it themselves
+    for f in &fns {
+        if !f.unsafe_ && f.owner == "PackedLevel0" && f.name == "record_ptr" {
+            unsafe_callees.insert(f.name.clone(), f.params.clone());
+        }
+    }
     // a safe function must not share its name with an unsafe one (method calls are matched by name)
     for f in &fns {
-        if !f.unsafe_ && unsafe_callees.contains_key(&f.name) {
+        if !f.unsafe_ && unsafe_callees.contains_key(&f.name) && f.name != "record_ptr" {
             return fail_at(f.line, &f.name, "a safe function shares its name with an unsafe fn (call sites are matched by name)");
         }
     }
